@@ -455,6 +455,12 @@ pub fn explore_local_kills(c: &Cfg, names: &[&str], bound: u32, workers: usize, 
         let all_exp: Vec<Vec<String>> = ex.points.iter().map(|q| q.enabled.clone()).collect();
         schedules.push((ex.choices.clone(), all_exp, prefix.len()));
     }
+    // does the command complete at all on this tree when nothing interferes? (names the staging suffix pushes past
+    // NAME_MAX make it fail with a report — then a re-run after a crash fails the same way, which is no violation)
+    let baseline_ok = {
+        let p = prepare(c, names, "e6k");
+        crate::e5::run_sync(&p.env, c, &[], None).code == Some(0)
+    };
     // kill points: for each schedule, the points from its own deviation onwards (earlier ones belong to its parent)
     let jobs: Vec<(usize, usize)> = schedules.iter().enumerate().flat_map(|(si, (ch, _, from))| (*from..=ch.len()).map(move |k| (si, k))).collect();
     let next = AtomicU64::new(0);
@@ -507,7 +513,16 @@ pub fn explore_local_kills(c: &Cfg, names: &[&str], bound: u32, workers: usize, 
                 if bad.is_none() {
                     // the same command again, free-running: must complete and deliver the plan (judged against the ORIGINAL pre-state)
                     let out = crate::e5::run_sync(&p.env, c, &[], None);
-                    if out.code != Some(0) {
+                    if out.code != Some(0) && !baseline_ok {
+                        // same reported failure as an uninterrupted run; still nothing mixed may be left behind
+                        let (d2, _) = crate::e5::snap(&p.env.dst());
+                        for (path, e) in d2.iter().filter(|(k, _)| !k.ends_with(".copia-tmp")) {
+                            let ok = p.dst0.0.get(path).is_some_and(|o| o.bytes == e.bytes) || p.src0.0.get(path).is_some_and(|n| n.bytes == e.bytes);
+                            if !ok {
+                                bad = Some(("mixed_destination".into(), format!("after the (failing) re-run destination {path} holds {} bytes: neither its pre-run content nor the source's", e.bytes.len())));
+                            }
+                        }
+                    } else if out.code != Some(0) {
                         bad = Some(("rerun_fails".into(), format!("running the same command again exits {:?}: {}", out.code, out.stderr.lines().last().unwrap_or(""))));
                     } else {
                         let (d2, _) = crate::e5::snap(&p.env.dst());
